@@ -49,6 +49,9 @@ def gen_cell(rng):
     roll = rng.random()
     if roll < 0.25:
         return ("string", rng.choice(STRINGS))
+    if roll < 0.33:
+        # the numbers that are equal to booleans and to each other in Python (1 == 1.0 == True, 0 == -0.0 == False)
+        return ("number", rng.choice([0.0, 1.0, -0.0, -1.0, 2.0, 10.0, 100.0]))
     if roll < 0.45:
         k = rng.randint(0, 53)
         base = 2**k + rng.choice([-1, 0, 1]) if rng.random() < 0.7 else rng.randint(0, 10**rng.randint(1, 15))
@@ -62,7 +65,7 @@ def gen_cell(rng):
         else:
             v = rng.uniform(1, 10) * 10 ** rng.randint(-300, 300)
         return ("number", v * rng.choice([1, -1]))
-    if roll < 0.72:
+    if roll < 0.76:
         return ("bool", rng.random() < 0.5)
     if roll < 0.9:
         form = rng.random()
